@@ -6,7 +6,8 @@ from hypothesis import strategies as st
 from vf.core import CaseResult, Ctx, Violation, hyp_run
 from vf.gen.wfspec import wfspecs
 from vf.sim.c06c43_util import (
-    read_db, run_schedule_ext, scheduler_holds, wrap_commands)
+    read_db, return_polls_promptly, run_schedule_ext, scheduler_holds,
+    wrap_commands)
 from vf.sim.drive import SCase, outcome_maps, run_async
 
 PROP_ID = 'C06'
@@ -68,6 +69,10 @@ ASSUMPTIONS = [
     'kill, remove, set and reload are not in the command alphabet (kill and '
     'remove hold the tasks they act on, which the statement does not cover).',
     'Command IDs name single instances (no globs / families).',
+    'The restart poll returns in the main-loop iteration after the one '
+    'that launched it (a poll result that arrives after newer job messages is the '
+    'recorded C09/C10 late-poll-result finding and is kept out of the '
+    'schedules).',
     'Status changes are taken from the pooled task proxy only (state events '
     'of data-store ghost proxies / proxies rebuilt from DB history are '
     'dropped by comparing with the pooled proxy and the call site).',
@@ -135,6 +140,7 @@ class HoldModel:
         # held (model) instances whose proxy was removed from the pool: the
         # scheduler drops the hold at that moment (TaskPool.remove)
         self.dropped: set = set()
+        self.in_trigger = None          # instance named by the running trigger
         self.down = False
         self.unsure = False
         self.viol: list = []
@@ -200,7 +206,10 @@ class HoldModel:
                 else:
                     self.classes.add('hold-point-took-effect-on-spawn')
                 self.T.add(ident)
-                self.exempt.discard(ident)
+                if ident != self.in_trigger:
+                    # (an instance (re)spawned by the trigger command that
+                    # names it stays "manually triggered")
+                    self.exempt.discard(ident)
             if ev['held']:
                 self.dropped.discard(ident)
         elif kind == 'remove':
@@ -263,6 +272,7 @@ class HoldModel:
     def pre(self, name, info):
         if name == 'trigger':
             ident = info['task']
+            self.in_trigger = ident
             self.exempt.add(ident)
             pooled = {f'{t["cycle"]}/{t["name"]}'
                       for t in self.sim.pool_snapshot()}
@@ -273,6 +283,7 @@ class HoldModel:
 
     def post(self, name, info, ev):
         self.classes.add('cmd:' + name)
+        self.in_trigger = None
         if ev.get('err'):
             self.unsure = True
             self.classes.add('command-error')
@@ -408,6 +419,7 @@ async def _check(case, ctx: Ctx) -> CaseResult:
         wrap_commands(sc.drv, m.pre, m.post)
         sc.drv.after_loop.append(m.after_loop)
         sc.drv.after_restart.append(m.after_restart)
+        sc.drv.after_loop.append(return_polls_promptly)
         await run_schedule_ext(sc)
         if sim.running:
             await sc.drv.cmd_resume(0)
